@@ -14,6 +14,7 @@ mod c17;
 mod c18;
 mod c18x;
 mod c18loop;
+mod c13l2;
 mod c19;
 mod consts;
 mod core;
@@ -95,6 +96,7 @@ fn main() {
         "c18" => c18::run(&a),
         "c18x" => c18x::run(&a),
         "c18loop" => c18loop::run(&a),
+        "c13l2" => c13l2::run(&a),
         "c19" => c19::run(&a),
         "coremix" => coregen::run(&a, "CORE", "CoreMix", &["mix", "c07", "c03", "c04", "c05", "c08", "c09", "c11", "c13", "c20"]),
         "c03" => coregen::run(&a, "C03", "C03", &["c03"]),
